@@ -781,6 +781,37 @@ DELIVER = {
 }
 
 
+def r6_10(ctx):
+    """COPY / MOVE hand their phony APPEND to the *destination* mailbox's queue.  A mailbox that has been deleted has no
+    management task any more (DELETE cancels it and wakes what was queued, once): a command queued on it afterwards is never
+    admitted and is answered by the watchdog only.  So the `dst_mbox.deleted` test must still be true when the command is
+    queued - no suspension point between the test and `ready_and_okay(dst_mbox)` (other sessions' DELETE runs at every one)."""
+    p = ctx.p
+    fi = p.func("mbox.Mailbox.copy")
+    g = ctx.cfg(fi)
+    adm = set()
+    for w, c in admission_items(fi):
+        if c.args and norm(c.args[0]) != "self":
+            recv = norm(c.args[0])
+            adm.update(n for n in g.nodes_for(w) if g.nodes[n].kind == "with_enter")
+    ctx.require(adm, "copy(): admission on the destination mailbox not found")
+    tests = {n.id for n in g.nodes if n.kind == "test" and n.ast is not None and any(isinstance(a, ast.Attribute) and a.attr == "deleted" and norm(a.value) == recv for a in ast.walk(n.ast))}
+    if not tests:
+        ctx.bad("R6.10", fi.module, fi.qual, f"if {recv}.deleted: raise", "copy() queues its APPEND on the destination without testing that the destination still exists: on a deleted mailbox nobody serves the queue and the COPY/MOVE is answered by the watchdog only", fi.node.lineno)
+        return
+    stale = None
+    for w in [n.id for n in g.nodes if n.awaits and n.id not in adm]:
+        seen = flow.reach(g, [w], flow.NORMAL, avoid=lambda x: x in tests)
+        if (set(seen) & adm) and w not in tests:
+            stale = w
+            break
+    ctx.paths_explored += 1
+    if stale is not None:
+        ctx.bad("R6.10", fi.module, fi.qual, f"suspension point between `if {recv}.deleted` and ready_and_okay({recv})", f"copy() can suspend (`{norm(g.nodes[stale].ast, 60)}`) after it tested that the destination exists and before it queues its APPEND there: a DELETE of the destination that completes in between leaves the APPEND on a queue nobody serves - COPY/MOVE hangs until the watchdog answers", g.nodes[stale].line)
+    else:
+        ctx.ok("R6.10", where(fi), f"`{recv}.deleted` is tested with no suspension point before the APPEND is queued on the destination")
+
+
 def r6_9(ctx):
     """"...after all untagged data belonging to it": in each handler that produces untagged data, what the mailbox operation
     returned (SEARCH hits, FETCH items, STORE's flag lines, the STATUS values, the SELECT preamble, the LIST entries) flows
@@ -836,6 +867,7 @@ def run(ctx):
     ctx.do(r6_7)
     ctx.do(r6_8)
     ctx.do(r6_9)
+    ctx.do(r6_10)
     from . import c01
     ctx.do(c01.r1_5)
     # R6.5 = C08 R8.1 (a non-BadCommand exception from parse() skips every reply path); admission relation and
